@@ -494,6 +494,19 @@ def scenario_oracle(ctx, sc, trace, engine):
                             'status=%s todo=%s' % (step[1], tag, ds[0], snap['que'],
                                                    node['status'], node['todo']),
                             dict(rep, theorem='C20_due_queues'))
+                # re-arm: one timer for the rounded smallest pending delay
+                pending = [d for tag, d in pre['delays']
+                           if isinstance(d, int) and d > 300 * US
+                           and pre['status'].get(tag, 'initial') not in ('running', 'waiting')]
+                before = len(trace[i - 1]['timers']) if i else 0
+                armed = snap['timers'][before:]
+                want_t = [round(min(pending) / 1e6)] if pending else []
+                if armed != want_t:
+                    ctx.violation(
+                        'timer-not-earliest', {'step': step[0]},
+                        'defer() at %s armed timers %s; pending delays %s need %s'
+                        % (step[1], armed, sorted(pending)[:3], want_t),
+                        dict(rep, theorem='C20_rearm'))
                 for tag in newly:
                     if tag not in due:
                         ctx.violation(
